@@ -831,6 +831,7 @@ func (p *placeStore) Watch(ctx context.Context, ch chan<- configapi.TransactionE
 }
 
 type world struct {
+	setJSON func(doc string, paths []string)
 	live   []string // targets of the current case (their connections are closed when the case is over)
 	e      *env.Env
 	plugin *fakes.PluginClient
@@ -850,7 +851,24 @@ func newWorld() *world {
 		}
 		return true, ""
 	}
+	var jmu sync.Mutex
+	jsonPaths := map[string][]string{}
+	// JSON-encoded updates: the model plugin decides which path values a document stands for
+	plugin.PathValues = func(prefix string, js []byte) ([]*configapi.PathValue, error) {
+		jmu.Lock()
+		defer jmu.Unlock()
+		pvs := []*configapi.PathValue{}
+		for i, pth := range jsonPaths[string(js)] {
+			pvs = append(pvs, &configapi.PathValue{Path: pth, Value: *configapi.NewTypedValueString(fmt.Sprintf("j%d", i))})
+		}
+		return pvs, nil
+	}
 	w := &world{e: env.New(0, plugin), plugin: plugin, rec: &recorder{h: map[configapi.TransactionID][]recEvent{}}, devs: map[string]*fakes.Device{}}
+	w.setJSON = func(doc string, paths []string) {
+		jmu.Lock()
+		jsonPaths[doc] = paths
+		jmu.Unlock()
+	}
 	ch := make(chan configapi.TransactionEvent, 1024)
 	if err := w.e.Txs.Watch(context.Background(), ch); err != nil {
 		panic(err)
@@ -1083,7 +1101,7 @@ func domE2E(r *rand.Rand, seed int64, n int) {
 			}
 			c.deadline = 1500 * time.Millisecond
 		}
-		sc := r.Intn(12)
+		sc := r.Intn(14)
 		switch {
 		case sc <= 2: // success, one or two targets, updates and deletes
 			t1 := w.newTarget(true)
@@ -1159,6 +1177,31 @@ func domE2E(r *rand.Rand, seed int64, n int) {
 				c.rbIndex, c.label = uint64(rr.Index), "rollback-of-rollback/"+pl.name
 			}
 			c.kind, c.sync = "rb", true
+		case sc >= 12: // JSON-encoded update: the changed paths are the plugin's, list keys hold characters of the path syntax
+			t1 := w.newTarget(true)
+			doc := fmt.Sprintf(`{"doc":%d}`, i)
+			n := 1 + r.Intn(3)
+			paths := []string{}
+			ups := []row{}
+			for x := 0; x < n; x++ {
+				pth := env.Pick(r, keyPaths)
+				dup := false
+				for _, q := range paths {
+					dup = dup || q == pth
+				}
+				if !dup {
+					paths = append(paths, pth)
+					ups = append(ups, row{t1, pth, false})
+				}
+			}
+			w.setJSON(doc, paths)
+			req := &gnmi.SetRequest{Extension: []*gnmi_ext.Extension{strategyExt(sync)},
+				Update: []*gnmi.Update{{Path: pathOf(t1, "interfaces"), Val: &gnmi.TypedValue{Value: &gnmi.TypedValue_JsonVal{JsonVal: []byte(doc)}}}}}
+			if r.Intn(3) == 0 {
+				req.Update = append(req.Update, &gnmi.Update{Path: pathOf(t1, "foo"), Val: strVal("v")})
+				ups = append(ups, row{t1, "/foo", false})
+			}
+			c.kind, c.label, c.req, c.want = "set", "json-key-paths/"+pl.name, req, ups
 		default: // rollback whose device push is refused
 			t1 := w.newTarget(true)
 			plainSet([]row{{t1, "/foo", false}}, []string{"old"})
